@@ -67,7 +67,7 @@ def gen(rng, tier):
             'k_max_frac': rng.choice([None, None, 0.6, 1.5]),
             'poles': rng.choice([None, [0], [0, 2], [0, 2, 4]]), 'dtype': rng.choice(['f4', 'f4', 'f8']),
             'T1': rng.choice([1, 2, 3, 5, 16]), 'T2': rng.choice([1, 2, 3, 5, 16]),
-            'sched': gen_sched(rng), 'compiled': rng.random() < 0.1}
+            'sched': gen_sched(rng), 'compiled': rng.random() < 0.1, 'pos_dtype': rng.choice(['f4', 'f4', 'f8'])}
 
 
 def _positions(case, which='pos', shift=None, dtype=np.float32):
@@ -144,13 +144,57 @@ def _compare(out, relation, site, base, other, tol_rel):
                 return
 
 
+def sweep(tier):
+    """Complete (mesh size, thread count) sweep of the compiled estimator: a split of the mesh between threads computed
+    from (nmesh, nthread) goes wrong only for particular pairs (e.g. 13 threads on 30 cells, 7 on 61)."""
+    top = 96 if tier == 'thorough' else 64
+    for lo in range(2, top + 1, 32):
+        yield {'nt_sweep': [lo, min(lo + 32, top + 1)]}
+
+
+def _nt_sweep(case, out):
+    from abacusnbody.analysis import power_spectrum as rps
+    lo, hi = case['nt_sweep']
+    L = 100.0
+    g = np.random.default_rng(13)
+    pos = (g.random((300, 3)) * L).astype(np.float32)
+    site = 'calc_power[compiled]'
+    for nmesh in range(lo, hi):
+        for k, (paste, interlaced) in enumerate((('TSC', False), ('CIC', True))):
+            if k == 1 and nmesh % 3:
+                continue
+            base = None
+            for T in range(1, 17):
+                try:
+                    t = _table(rps.calc_power(pos.copy(), L, kbins=4, mubins=2, paste=paste, nmesh=nmesh, compensated=True,
+                                              interlaced=interlaced, poles=[0, 2], nthread=T, dtype=np.float32))
+                except Exception as e:
+                    violation(out, 'raises:' + type(e).__name__, site, {'nmesh': nmesh, 'nthread': T, 'error': repr(e)[:300]})
+                    return out
+                if T == 1:
+                    base = t
+                    continue
+                _compare(out, 'thread-count', site, base, t, 2e-5)
+                if out['violations']:
+                    out['violations'][-1]['detail'] = dict(out['violations'][-1]['detail'], nmesh=nmesh, nthread=T, paste=paste)
+                    return out
+    bump(out['probes'], 'compiled-(nmesh,threads)-sweep', (hi - lo) * 16)
+    bump(out['faults'], 'real-thread-counts-1..16', hi - lo)
+    out['events'].append(['nt_sweep', lo, hi])
+    out['steps'] = (hi - lo) * 16
+    out['nontrivial'] = ['nt_sweep', lo]
+    return out
+
+
 def run(case):
+    if case.get('nt_sweep'):
+        return _nt_sweep(case, new_outcome())
     from abx_sim.analysis import power_spectrum as ps
     from e1_threads import harness as H
     from e1_threads.sched import SIM
     out = new_outcome()
     s = case['sched']
-    pdt = np.float32
+    pdt = np.float64 if case.get('pos_dtype') == 'f8' else np.float32
     pos = _positions(case, dtype=pdt)
     w = None if case['weights'] is None else np.array(case['weights'], dtype=np.float32)
     perm = np.array(case['perm'], dtype=np.int64)
@@ -246,6 +290,13 @@ def _compiled(case, pos, w, perm, base, out, tol):
 
 
 def shrink(case):
+    if case.get('nt_sweep'):
+        lo, hi = case['nt_sweep']
+        if hi - lo > 1:
+            mid = (lo + hi) // 2
+            yield {'nt_sweep': [lo, mid]}
+            yield {'nt_sweep': [mid, hi]}
+        return
     c = dict(case)
     n = len(case['pos'])
     for k in (n // 2, 1):
